@@ -126,6 +126,24 @@ def judge_c04(case: dict) -> dict:
                 discs.append(Discrepancy.make("api_entry_missing", el, f"{key} has no id {e['id']}", tags))
             elif bool(ent.get("is_public")) != e["public"]:
                 discs.append(Discrepancy.make("api_is_public_wrong", el, f"is_public={ent.get('is_public')} but the declaration is {'public' if e['public'] else 'private'} (re-exported={e['reexported']})", tags + ([] if not e["reexported"] else ["reexported"])))
+    # whole-output scan: no declaration with a private Python name anywhere in the stubs, wherever it comes from (e.g. a
+    # member copied from a private superclass into a public subclass), unless it is the public alias of a re-export
+    flagged = {d["element"] for d in discs if d["kind"] == "private_declaration_leaked"}
+    by_chain = {ch: e for e in facts.entries for ch in e["chains"]}
+    n_inherit = sum(1 for m in case["pkg"]["modules"] for _o, d in gt.walk_decls(m["decls"]) if d["t"] == "class" and d.get("bases"))
+    for rel, sf in ss.files.items():
+        for owner, d in sf.walk():
+            if not is_private_name(d.python_name):
+                continue
+            res["evals"] += 1
+            ch = (*owner, d.python_name)
+            e = by_chain.get(ch)
+            el = ".".join([*e["module"], *e["owner"], e["name"]]) if e else f"{rel}: {'.'.join(ch)}"
+            if el in flagged or ch in public_chains:
+                continue
+            tags = entry_tags(e) if e else (["decl:enum"] if d.kind in {"enum", "variant"} else [])
+            discs.append(Discrepancy.make("private_declaration_leaked", el, f"{d.kind} with the private name {d.python_name!r} is declared in {rel} (owner {'.'.join(owner) or 'module'})", tags))
+    res["stats"].append(f"classes_with_superclass_in_module={min(n_inherit, 3)}")
     if priv_in_pub and pub_in_priv:
         res["nontrivial"].append(f"{priv_in_pub}|{pub_in_priv}|{len(facts.entries)}|{case['pkg']['name']}")
     res["stats"] += [f"private_in_public_owner={min(priv_in_pub, 3)}", f"public_name_in_private_owner={min(pub_in_priv, 3)}"]
